@@ -114,10 +114,16 @@ Scenario ==
     [] arr = "shadow"     -> [S |-> WithFirst(WithLast(TRef(DefRef(n)), K_definitions, Defs(n)), IdKw(D), Str(URoot)),
                               more |-> <<[u |-> URoot, doc |-> Obj1(K_definitions, Obj1(n, Never(D)))]>>]
     [] arr = "pctsep"     -> [S |-> WithLast(TRef(DefRefPct(n)), K_definitions, Defs(n)), more |-> <<>>]
+    \* another document of the store merely CLAIMS (in its own id) the URL under which the referenced document is kept
+    [] arr = "claimed"    -> [S |-> TRef(UDefs \o DefRef(n)),
+                              more |-> <<[u |-> UDefs, doc |-> Obj1(K_definitions, Defs(n))],
+                                         [u |-> UOther, doc |-> Obj2(IdKw(D), Str(UDefs), K_definitions, Obj1(n, Never(D)))]>>]
+    \* the empty reference (the document itself, like "#") with sibling keywords, which are ignored next to $ref
+    [] arr = "emptyref"   -> [S |-> SetAt(T, pos, 1, WithLast(Never(D), K_d_ref, Str(<<>>))), more |-> <<>>]
     [] arr = "urn"        -> [S |-> WithFirst(WithLast(TRef(DefRef(n)), K_definitions, Defs(n)), IdKw(D), Str(UUrn)), more |-> <<>>]
 
 AllArrs == {"local", "rootid", "rootidhash", "absref", "relid", "storeabs", "storerel", "storeownid", "chain",
-            "arrayelem", "nestedabs", "nestedrel", "mixed", "otherid", "recursive", "shadow", "pctsep", "urn"}
+            "arrayelem", "nestedabs", "nestedrel", "mixed", "otherid", "recursive", "shadow", "pctsep", "claimed", "emptyref", "urn"}
 
 QuickNames == {1, 2, 3, 5, 6, 8, 10, 13, 20}
 ThoroughNames == DOMAIN AllNames
@@ -130,7 +136,7 @@ ChoosePos  == stage = 1 /\ pos' \in { p \in SubschemaPaths(D, T) : Extractable(p
 ChooseName == stage = 2 /\ name' \in { AllNames[i] : i \in Names } /\ stage' = 3 /\ UNCHANGED <<bi, pos, arr>>
 ChooseArr  == /\ stage = 3 /\ arr' \in Arrs /\ stage' = 4 /\ UNCHANGED <<bi, pos, name>>
               /\ (arr' = "mixed" => ~HasKey(T, IF D = 3 THEN K_disallow ELSE K_not))      \* keys of an object are unique
-              /\ (arr' = "recursive" => pos # <<>> /\ pos[1].s \in {K_properties, K_patternProperties, K_additionalProperties,
+              /\ (arr' \in {"recursive", "emptyref"} => pos # <<>> /\ pos[1].s \in {K_properties, K_patternProperties, K_additionalProperties,
                                                                      K_items, K_additionalItems, K_contains})
 Next == ChooseBase \/ ChoosePos \/ ChooseName \/ ChooseArr
 Spec == Init /\ [][Next]_vars
@@ -141,7 +147,7 @@ NI == Len(RInstances)
 Transparent ==
   stage = 4 =>
     LET sc == Scenario  env == REnv(sc)
-        inl == IF arr = "recursive" THEN [ok |-> TRUE, v |-> InlineTrunc(D, env, sc.S, 4)] ELSE Inline(D, env, sc.S, FMAX) IN
+        inl == IF arr \in {"recursive", "emptyref"} THEN [ok |-> TRUE, v |-> InlineTrunc(D, env, sc.S, 4)] ELSE Inline(D, env, sc.S, FMAX) IN
     /\ inl.ok
     /\ \A i \in 1 .. NI :
          LET a == Run(D, env, sc.S, RInstances[i])
@@ -149,7 +155,7 @@ Transparent ==
          IN  a.exc = {} /\ a.ood = {} /\ LocBag(a.errs, b.errs)
 \* extraction preserves meaning: the scenario behaves as the original reference-free schema
 SameAsOriginal ==
-  (stage = 4 /\ arr \notin {"mixed", "recursive"}) =>
+  (stage = 4 /\ arr \notin {"mixed", "recursive", "emptyref"}) =>
     LET sc == Scenario  env == REnv(sc) IN
     \A i \in 1 .. NI : LocBag(Run(D, env, sc.S, RInstances[i]).errs, Run(D, EnvFor(D, T, UPats), T, RInstances[i]).errs)
 
@@ -159,7 +165,7 @@ ASSUME PrintT(ToJson([instances |-> RInstances]))
 ExportInv ==
   stage = 4 =>
     LET sc == Scenario  env == REnv(sc)
-        inl == IF arr = "recursive" THEN [ok |-> TRUE, v |-> InlineTrunc(D, env, sc.S, 4)] ELSE Inline(D, env, sc.S, FMAX) IN
+        inl == IF arr \in {"recursive", "emptyref"} THEN [ok |-> TRUE, v |-> InlineTrunc(D, env, sc.S, 4)] ELSE Inline(D, env, sc.S, FMAX) IN
     PrintT(ToJson([S |-> sc.S, more |-> sc.more, arr |-> arr, name |-> name, inl |-> inl.v, T |-> T,
                    e |-> [i \in 1 .. NI |-> LET r == Run(D, env, sc.S, RInstances[i]) IN
                             [j \in DOMAIN r.errs |-> Plain(r.errs[j])]]]))
